@@ -407,6 +407,17 @@ def check(rep):
             jobs.append((d['scenario'], d['seed']))
     for _ in range(260 if not thorough else 5000):
         jobs.append((gen_history(rng, thorough), rng.randrange(1 << 30)))
+    # a channel that collected confirm mode / messages / an error is closed (by the broker or the application) and opened again
+    for _ in range(40 if not thorough else 600):
+        ops = [['open', 'ok'], ['channel', 1]]
+        extras = [o for o in (['confirm', 1], ['deliver', 1], ['park', 1]) if rng.random() < 0.6]
+        rng.shuffle(extras)
+        ops += extras
+        ops += [[rng.choice(['broker-close-chan', 'chan-close']), 1], ['chan-reopen', 1]]
+        if rng.random() < 0.5:
+            ops += [['confirm', 1], ['broker-close-chan', 1], ['chan-reopen', 1]]
+        ops.append(['close', 1, False])
+        jobs.append(({'hb': 0, 'ops': ops}, rng.randrange(1 << 30)))
     # close() exactly when the heartbeat timer fires, under heavy pre-emption (stop() against the re-arm)
     for _ in range(160 if not thorough else 3000):
         ops = [['open', 'ok']]
